@@ -179,9 +179,24 @@ func ruleC02Nav(c *Ctx, r *Rep) {
 			}
 			n++
 			okc := false
-			for _, s := range cc.Body {
+			for k, s := range cc.Body {
 				ifs, ok := s.(*ast.IfStmt)
 				if !ok || !isGuard(ifs.Cond) || !strings.Contains(c.Src(ifs.Cond), "pathIntact(") {
+					continue
+				}
+				// nothing before the test can leave the clause: an early exit for the empty container in front of it lets
+				// `path([] | .[])` pass without the invalid-path error
+				leavesBefore := false
+				for _, prev := range cc.Body[:k] {
+					ast.Inspect(prev, func(q ast.Node) bool {
+						switch q.(type) {
+						case *ast.BranchStmt, *ast.ReturnStmt:
+							leavesBefore = true
+						}
+						return true
+					})
+				}
+				if leavesBefore {
 					continue
 				}
 				for _, b := range ifs.Body.List {
